@@ -117,6 +117,11 @@ def main(tier):
         run.ob(m.tb.category_of("Superscript") == m.tb.category_of(m.tokvar("^")), "super-category|%s" % ev, "C13 superscripts have the category of ^", where(m, "::token::Token::get_oper_prec"), "")
         # prefix + and redundant brackets
         plus = pr.get(m.tokvar("+"))
+        minus = pr.get(m.tokvar("-"))
+        lvl_p = [e_[1] for e_ in plus[1][0] if e_[0] == "ast"] if plus else None
+        lvl_m = [e_[1] for e_ in minus[1][0] if e_[0] == "ast"] if minus else None
+        run.ob(plus is not None and [e_[0] for e_ in plus[1][0]] == ["next", "ast"] and lvl_p == ["Negative"] and lvl_p == lvl_m, "prefix-plus-level|%s" % ev,
+               "C13 the operand of a prefix + is parsed at the prefix level (it absorbs exactly what a prefix - absorbs), so the + is redundant in every context", where(m, "::parser::Parser::parse_number"), "levels: + %s, - %s" % (lvl_p, lvl_m))
         run.ob(plus is not None and plus[1][1] == ("ok", ("R1",)), "prefix-plus|%s" % ev, "C13 a prefix + returns its operand unchanged", where(m, "::parser::Parser::parse_number"), show_tail(plus[1][1])[:120] if plus else "")
         opn = pr.get(m.tokvar("("))
         okp = opn is not None and opn[1][1][0] == "tailcall" and opn[1][1][1][0] == "encl" and M("(lambda ((bind ?x)) (var ?x))", opn[1][1][1][3]) is not None and opn[1][1][1][1] == "DefaultZero"
